@@ -15,8 +15,7 @@ CONSTANTS TinyErrNeg,      \* rational reconstruction error of a tiny-system ite
           BiBound,      \* size guard of the BiCGStab reference recurrence (32-bit integers)
           RefBoundNeg,     \* ||x_k - xref_k|| / ||x*||  <= 10^(RefBoundNeg/1000) * cond
           OptBoundNeg,     \* optimality / orthogonality defects
-          TermBoundNeg,    \* residual after n (+ n/s) iterations
-          TermBoundCxLNeg  \* the same for complex BiCGStab(L >= 2), see docs/C05.md
+          TermBoundNeg     \* residual after n (+ n/s) iterations
 
 VARIABLES l, bad
 
@@ -73,7 +72,7 @@ MinresClauses(r) ==
 TermClauses(r) ==
     LET wf == \A f \in {"method", "vt", "prec", "budget", "cond", "L"} : Has(r, f)
         got == wf /\ ~Has(r, "exc") /\ Has(r, "nan") /\ r.nan = 0 /\ Has(r, "tru") /\ Has(r, "it")
-        bnd == IF r.method = "bicgstabl" /\ r.vt = "complex" /\ r.L >= 2 /\ r.prec = "identity" THEN (-TermBoundCxLNeg) ELSE (-TermBoundNeg)
+        bnd == (-TermBoundNeg)
     IN  <<  <<"wellformed", wf>>,
             <<"terminates-without-failure", wf => got>>,
             <<"solution-within-n-iterations", got => r.tru <= bnd + r.cond>>,
